@@ -70,8 +70,11 @@ pub struct NodeCfg {
     pub fsync: bool,
     pub no_wait: bool,
     pub dedup: bool,
-    /// 0 = off, 1 = KEY_A, 2 = KEY_B
+    /// 0 = off, 1 = KEY_A, 2 = KEY_B, 3 = enabled with an unusable key (16 bytes instead of 32)
     pub encryption: u8,
+    /// deduplication ids never expire (expiry 0 = "unlimited") instead of after a TTL far beyond the run
+    #[serde(default)]
+    pub dedup_ids_never_expire: bool,
     /// server default message expiry in microseconds (None = never)
     pub default_expiry_us: Option<u64>,
     /// server default max topic size in bytes (None = unlimited)
@@ -101,6 +104,7 @@ impl Default for NodeCfg {
             no_wait: false,
             dedup: false,
             encryption: 0,
+            dedup_ids_never_expire: false,
             default_expiry_us: None,
             default_max_topic_size: None,
             delete_oldest: false,
@@ -141,12 +145,16 @@ impl NodeCfg {
         c.message_deduplication.max_entries = 1_000_000;
         // moka runs on its own clock; a TTL far beyond any run keeps ids "within the
         // configured time-to-live" as the statement of C18 allows.
-        c.message_deduplication.expiry = IggyDuration::from_str("100h").unwrap();
+        c.message_deduplication.expiry = if self.dedup_ids_never_expire { IggyDuration::from(0u64) } else { IggyDuration::from_str("100h").unwrap() };
         match self.encryption {
             0 => c.encryption.enabled = false,
             1 => {
                 c.encryption.enabled = true;
                 c.encryption.key = KEY_A.to_string();
+            }
+            3 => {
+                c.encryption.enabled = true;
+                c.encryption.key = "MTIzNDU2Nzg5MDEyMzQ1Ng==".to_string(); // 16 bytes: not a usable AES-256 key
             }
             _ => {
                 c.encryption.enabled = true;
